@@ -22,9 +22,11 @@ PKINDS = ["int", "float", "bool", "dt", "str", "cat_str", "cat_int"]
 def key_pool(kind):
     import pandas as pd
     if kind == "int":
-        return [0, -3, 17, 1000000]
+        # incl. values beyond 2**53 (not representable as float64) and the int64 bounds
+        return [0, -3, 2 ** 53 + 1, 1000000, 2 ** 63 - 1, 17, -2 ** 63, -(2 ** 53 + 3)]
     if kind == "float":
-        return [0.5, 1.0, -2.25, 1e10]
+        # incl. values whose text uses exponent notation or needs 17 significant digits
+        return [0.5, 1.0, 0.1, 1e10, 1e-07, -2.25, 1.7976931348623157e308, 123456789.12345679]
     if kind == "bool":
         return [True, False]
     if kind == "dt":
